@@ -285,10 +285,19 @@ Lemma analyze_fn_deps_cases tg s o deps tg' :
                            extract_deps_from_type tg (s_gen s) ty = Ok (deps, tg')).
 Proof.
   unfold analyze_fn_deps. destruct (no_deps_value o).
-  - intros H. injection H as <- _. left. auto.
+  - destruct (p_items (s_inputs s)) as [|[x r m c|x p ty] rest]; intros H; try discriminate H; injection H as <- _; left; auto.
   - destruct (p_items (s_inputs s)) as [|[x r m c|x p ty] rest]; try discriminate.
     intros H. right. split; [reflexivity|]. split; [eapply extract_not_nodeps; exact H|].
     do 4 eexists. split; [reflexivity | exact H].
+Qed.
+
+Lemma analyze_fn_deps_nodeps tg s o deps tg' :
+  no_deps_value o = true -> analyze_fn_deps tg s o = Ok (deps, tg') ->
+  deps = DNoDeps /\ tg' = deps_with_generics tg (s_gen s) /\
+  match p_items (s_inputs s) with ArgRecv _ _ _ _ :: _ => False | _ => True end.
+Proof.
+  unfold analyze_fn_deps. intros ->.
+  destruct (p_items (s_inputs s)) as [|[x r m c|x p ty] rest]; intros H; try discriminate H; injection H as <- <-; auto.
 Qed.
 
 (** the parameters handed to [fix_fn_param_idents]: the generated receiver(s), then the source
